@@ -290,6 +290,14 @@ func (c *Client) disconnected() bool {
 }
 
 func (c *Client) closeAndDelSession() {
+	// if the client id has been taken over by a new connection, the session and
+	// the subscriptions of this id belong to the new connection now, so only
+	// close this connection and leave them alone.
+	if cur := c.broker.getClient(c.info.cid); cur != nil && cur != c {
+		c.close()
+		return
+	}
+
 	c.broker.sessMgr.delLocal(c.info.cid)
 	if c.session.cleanSession() {
 		c.broker.sessMgr.delDB(c.info.cid)
